@@ -271,8 +271,28 @@ func checkC20(c *Ctx, r *Report) {
 		}
 		// eviction: the outcome read to adjust `successes` is the one dropped, i.e. it is
 		// read before the window is shortened
+		// (the eviction may live in a helper called from RecordResult)
+		ev := rr
+		hasTrim := func(g *ssa.Function) bool {
+			found := false
+			allInstrs(g, func(in ssa.Instruction) {
+				if st, ok := in.(*ssa.Store); ok && isFieldWrite(in, ctrT+".dialResults") {
+					if sl, ok := strip2(st.Val).(*ssa.Slice); ok && sl.Low != nil {
+						found = true
+					}
+				}
+			})
+			return found
+		}
+		if !hasTrim(rr) {
+			for _, g := range staticClosure(c, rr) {
+				if g != rr && fnKey(g) != resetK && hasTrim(g) {
+					ev = g
+				}
+			}
+		}
 		var trims, evictReads []ssa.Instruction
-		allInstrs(rr, func(in ssa.Instruction) {
+		allInstrs(ev, func(in ssa.Instruction) {
 			if st, ok := in.(*ssa.Store); ok && isFieldWrite(in, ctrT+".dialResults") {
 				if sl, ok := strip2(st.Val).(*ssa.Slice); ok && sl.Low != nil {
 					trims = append(trims, in)
@@ -285,20 +305,20 @@ func checkC20(c *Ctx, r *Report) {
 			}
 		})
 		if len(trims) != 1 || len(evictReads) != 1 {
-			r2.Fail("RecordResult: window eviction", rr.Pos(), "expected one read of dialResults[0] and one trimming assignment", "")
+			r2.Fail("RecordResult: window eviction", ev.Pos(), "expected one read of dialResults[0] and one trimming assignment", "")
 		} else {
-			w, n := (&Cut{Fn: rr, From: trims, Target: inSet(evictReads)}).Run(c)
+			w, n := (&Cut{Fn: ev, From: trims, Target: inSet(evictReads)}).Run(c)
 			r2.Check(w == "", "RecordResult: evicted outcome is read before the window is shortened", instrPos(evictReads[0]), n+1, "", "successes is adjusted with the wrong (surviving) outcome", w)
 			// successes-- only past that read being true
 			var decs []ssa.Instruction
-			allInstrs(rr, func(in ssa.Instruction) {
+			allInstrs(ev, func(in ssa.Instruction) {
 				if st, ok := in.(*ssa.Store); ok && isFieldWrite(in, ctrT+".successes") {
 					if b, ok := st.Val.(*ssa.BinOp); ok && b.Op == token.SUB {
 						decs = append(decs, in)
 					}
 				}
 			})
-			r2.guard(rr, "successes--", decs, "dialResults[0] (evicted) was a success", edgeBool(func(v ssa.Value) bool {
+			r2.guard(ev, "successes--", decs, "dialResults[0] (evicted) was a success", edgeBool(func(v ssa.Value) bool {
 				u, ok := v.(*ssa.UnOp)
 				return ok && u.Op == token.MUL && u.X == evictReads[0].(ssa.Value)
 			}, true), nil)
@@ -378,12 +398,22 @@ func checkC20(c *Ctx, r *Report) {
 	r4 := r.Rule("C20-R4", "E1/E4", 4, "HandleRequest returns Blocked only when state is neither Allowed nor Probing and this is not the N-th request; fields under mu")
 	if hr := r4.need("(*" + swarmP + ".BlackHoleSuccessCounter).HandleRequest"); hr != nil {
 		var blockedRets []ssa.Instruction
+		isState := func(v ssa.Value) bool { return isLoadOfField(ctrT + ".state")(strip2(v)) }
+		stateIs := func(k int64) EdgePred { return edgeIntBound(isState, k, k, false) }
 		for _, ret := range returnsOf(hr) {
-			v, ok := constInt(retVal(ret, 0))
-			if !ok {
-				r4.Fail("HandleRequest: non-constant return", instrPos(ret), "cannot classify", "")
-			} else if v == stBlocked {
+			rv := retVal(ret, 0)
+			v, ok := constInt(rv)
+			switch {
+			case ok && v == stBlocked:
 				blockedRets = append(blockedRets, ret)
+			case ok:
+			case isState(rv) || isState(ret.Results[0]):
+				// `return b.state`: it answers Blocked unless the path established state == Allowed or state == Probing
+				if w, _ := (&Cut{Fn: hr, Target: isInstr(ret), EdgeCut: anyEdge(stateIs(stAllowed), stateIs(stProbing))}).Run(c); w != "" {
+					blockedRets = append(blockedRets, ret)
+				}
+			default:
+				r4.Fail("HandleRequest: return value", instrPos(ret), "neither a state constant nor the current state", describeVal(rv))
 			}
 		}
 		stateEq := func(k int64) EdgePred {
